@@ -90,3 +90,74 @@ func (v *VerifListener6) Handle(data []byte, oob *ipv6.ControlMessage, peer *net
 func VerifSendEthernet(iface net.Interface, resp *dhcpv4.DHCPv4) error {
 	return sendEthernet(iface, resp)
 }
+
+// VerifListen4 opens a real socket with listen4 (as Start does) and wraps the resulting
+// listener; replies still go to sink instead of the socket.
+func VerifListen4(a *net.UDPAddr, handlers []handler.Handler4, sink VerifSink4) (*VerifListener4, error) {
+	l, err := listen4(a)
+	if err != nil {
+		return nil, err
+	}
+	l.handlers = handlers
+	verifSinks.Store(l, sink)
+	return &VerifListener4{l}, nil
+}
+
+// VerifListen6 opens a real socket with listen6 (as Start does) and wraps the resulting listener.
+func VerifListen6(a *net.UDPAddr, handlers []handler.Handler6, sink VerifSink6) (*VerifListener6, error) {
+	l, err := listen6(a)
+	if err != nil {
+		return nil, err
+	}
+	l.handlers = handlers
+	verifSinks.Store(l, sink)
+	return &VerifListener6{l}, nil
+}
+
+// IfIndex is the index of the interface the listener is bound to (0 = unbound).
+func (v *VerifListener4) IfIndex() int { return v.l.Interface.Index }
+
+// IfIndex is the index of the interface the listener is bound to (0 = unbound).
+func (v *VerifListener6) IfIndex() int { return v.l.Interface.Index }
+
+// Receive reads one datagram from the socket exactly as Serve does.
+func (v *VerifListener4) Receive() ([]byte, *ipv4.ControlMessage, *net.UDPAddr, error) {
+	b := make([]byte, MaxDatagram)
+	n, oob, peer, err := v.l.ReadFrom(b)
+	if err != nil {
+		return nil, nil, nil, err
+	}
+	return b[:n], oob, peer.(*net.UDPAddr), nil
+}
+
+// Receive reads one datagram from the socket exactly as Serve does.
+func (v *VerifListener6) Receive() ([]byte, *ipv6.ControlMessage, *net.UDPAddr, error) {
+	b := make([]byte, MaxDatagram)
+	n, oob, peer, err := v.l.ReadFrom(b)
+	if err != nil {
+		return nil, nil, nil, err
+	}
+	return b[:n], oob, peer.(*net.UDPAddr), nil
+}
+
+// CloseSocket closes the underlying socket, if any, and forgets the sink.
+func (v *VerifListener4) CloseSocket() {
+	if v.l.PacketConn != nil {
+		v.l.PacketConn.Close()
+	}
+	v.Close()
+}
+
+// CloseSocket closes the underlying socket, if any, and forgets the sink.
+func (v *VerifListener6) CloseSocket() {
+	if v.l.PacketConn != nil {
+		v.l.PacketConn.Close()
+	}
+	v.Close()
+}
+
+// LocalAddr is the address the socket is bound to.
+func (v *VerifListener4) LocalAddr() net.Addr { return v.l.PacketConn.LocalAddr() }
+
+// LocalAddr is the address the socket is bound to.
+func (v *VerifListener6) LocalAddr() net.Addr { return v.l.PacketConn.LocalAddr() }
